@@ -10,6 +10,8 @@ Open Scope Z_scope.
 Definition iValueError := 105.     (* ValueError from an rdata constructor check *)
 Definition iNotModelled := 997.    (* model artefact: wire codec of the generic-syntax branch *)
 
+Inductive enum_kind := KType | KScheme | KCtype | KAlgMn.
+
 Inductive tfield :=
 | FDec (maxv : Z)                          (* get_uint8/16/32/48 *)
 | FTtl                                     (* get_ttl *)
@@ -25,7 +27,9 @@ Inductive tfield :=
 | FAlg                                     (* get_string + dns.dnssectypes.Algorithm.make; printed as a number *)
 | FTag                                     (* CAA tag: get_string().encode(), alphanumeric *)
 | FBitmap                                  (* rest of line: type mnemonics, Bitmap.from_text *)
-| FB32.                                    (* NSEC3 next hashed owner: base32hex, lower case, no padding *)
+| FB32                                     (* NSEC3 next hashed owner: base32hex, lower case, no padding *)
+| FEnum (k : enum_kind)                    (* get_string + a mnemonic-or-number conversion *)
+| FNsap.                                   (* NSAP: "0x" + hex, dots ignored on input *)
 
 Inductive tval :=
 | VInt (z : Z)
@@ -509,6 +513,63 @@ Definition b32hex_decode (t : list Z) : res (list Z) :=
        | None => Internal iBinascii
        end.
 
+(* ---------- mnemonic-or-number fields (DSYNC rrtype / scheme, CERT type / algorithm) ---------- *)
+Definition ctype_table : list (list Z * Z) :=
+  [([80; 75; 73; 88], 1);
+   ([83; 80; 75; 73], 2);
+   ([80; 71; 80], 3);
+   ([73; 80; 75; 73; 88], 4);
+   ([73; 83; 80; 75; 73], 5);
+   ([73; 80; 71; 80], 6);
+   ([65; 67; 80; 75; 73; 88], 7);
+   ([73; 65; 67; 80; 75; 73; 88], 8);
+   ([85; 82; 73], 253);
+   ([79; 73; 68], 254)].
+
+Definition notify_name : list Z := [78; 79; 84; 73; 70; 89].
+
+Definition enum_max (k : enum_kind) : Z :=
+  match k with KType | KCtype => 65535 | KScheme | KAlgMn => 255 end.
+
+(* to_text side *)
+Definition enum_print (k : enum_kind) (v : Z) : res (list Z) :=
+  match k with
+  | KType => rdtype_to_text v                                   (* dns.rdatatype.to_text *)
+  | KScheme => Ok (if v =? 1 then notify_name else dec v)       (* DSYNC Scheme.to_text *)
+  | KCtype => Ok (match assoc_value v ctype_table with Some n => n | None => dec v end)   (* CERT _ctype_to_text *)
+  | KAlgMn => Ok (match assoc_value v alg_table with Some n => n | None => dec v end)     (* Algorithm.to_text *)
+  end.
+
+(* from_text side, at token time *)
+Definition enum_parse (k : enum_kind) (t : list Z) : res Z :=
+  match k with
+  | KType => rdtype_from_text t
+  | KScheme =>
+      let u := map upper_c t in
+      if zlist_eqb u notify_name then Ok 1
+      else if negb (is_nil u) && forallb is_decimal u then
+             let v := dec_value u 0 in if v >? 255 then Internal iValueError else Ok v
+           else Lib eUnknownRdatatype   (* UnknownScheme: a DNSException outside the SyntaxError family *)
+  | KCtype =>
+      match assoc_text t ctype_table with
+      | Some v => Ok v
+      | None => match py_int 10 t with Some v => Ok v | None => Internal iValueError end
+      end
+  | KAlgMn => alg_from_text t
+  end.
+
+(* constructor range check *)
+Definition enum_ctor (k : enum_kind) (v : Z) : res Z :=
+  if (v <? 0) || (v >? enum_max k) then Internal iValueError else Ok v.
+
+(* NSAP.from_text *)
+Definition nsap_from_text (t : list Z) : res (list Z) :=
+  if negb (starts_with [48; 120] t) then Lib eSyntax
+  else
+    let h := filter (fun c => negb (c =? 46)) (skipn 2 t) in
+    if negb (Nat.even (length h)) then Lib eSyntax
+    else do e <- utf8_encode h; unhexlify e.
+
 (* ---------- printing ---------- *)
 (* Name.to_styled_text(style) with idna_codec None, omit_final_dot False *)
 Definition name_to_styled_text (st : style) (n : name) : res (list Z) :=
@@ -530,6 +591,8 @@ Definition print_field (st : style) (f : tfield) (v : tval) : res (list Z) :=
   | FTag, VBytes b => Ok (escapify b)
   | FBitmap, VWindows ws => bitmap_to_text ws
   | FB32, VBytes b => Ok (b32hex_encode b)
+  | FEnum k, VInt z => enum_print k z
+  | FNsap, VBytes b => Ok ([48; 120] ++ hexlify b)
   | _, _ => Internal eBadCase
   end.
 
@@ -586,6 +649,8 @@ Definition parse_field (c : pctx) (f : tfield) (st : tstate) : res (tval * tstat
   | FAlg => do ts <- get_string st 0; Ok (VBytes (fst ts), snd ts)
   | FTag => do ts <- get_string st 0; do b <- utf8_encode (fst ts); Ok (VBytes b, snd ts)
   | FB32 => do ts <- get_string st 0; do b <- b32hex_decode (fst ts); Ok (VBytes b, snd ts)
+  | FEnum k => do ts <- get_string st 0; do v <- enum_parse k (fst ts); Ok (VInt v, snd ts)
+  | FNsap => do ts <- get_string st 0; do b <- nsap_from_text (fst ts); Ok (VBytes b, snd ts)
   | FBitmap =>
       do ts <- get_remaining st 0;
       do types <- map_res bitmap_token_type (fst ts);
@@ -612,6 +677,7 @@ Definition ctor_field (f : tfield) (v : tval) : res tval :=
   | FAddr v6, VBytes t => do b <- (if v6 then ipv6_aton t else ipv4_aton t); Ok (VBytes b)
   | FHexTok, VBytes b => if zlen b >? 255 then Internal iValueError else Ok v
   | FB32, VBytes b => if zlen b >? 255 then Internal iValueError else Ok v
+  | FEnum k, VInt z => do z' <- enum_ctor k z; Ok (VInt z')
   | FAlg, VBytes t => do z <- alg_from_text t; Ok (VInt z)
   | FTag, VBytes b =>
       if (zlen b >? 255) || is_nil b || negb (forallb is_alnum b) then Internal iValueError else Ok v
@@ -654,6 +720,10 @@ Definition schema_of (rdtype : Z) : option (list tfield) :=
   else if rdtype =? 47 then Some [FName; FBitmap]                                   (* NSEC *)
   else if rdtype =? 62 then Some [u32; u16; FBitmap]                                (* CSYNC *)
   else if rdtype =? 50 then Some [u8; u8; u16; FHexTok; FB32; FBitmap]              (* NSEC3 *)
+  else if rdtype =? 66 then Some [FEnum KType; FEnum KScheme; u16; FName]           (* DSYNC *)
+  else if rdtype =? 37 then Some [FEnum KCtype; u16; FEnum KAlgMn; FB64Rest true]   (* CERT *)
+  else if rdtype =? 22 then Some [FNsap]                                            (* NSAP *)
+  else if (rdtype =? 67) || (rdtype =? 68) then Some [FB64Rest false]               (* HHIT BRID *)
   else if (rdtype =? 2) || (rdtype =? 5) || (rdtype =? 12) || (rdtype =? 39) || (rdtype =? 23)
   then Some [FName]                                        (* NS CNAME PTR DNAME NSAP-PTR *)
   else if (rdtype =? 15) || (rdtype =? 18) || (rdtype =? 21) || (rdtype =? 36) || (rdtype =? 107)
@@ -709,6 +779,8 @@ Fixpoint vals_of_obs (fs : list tfield) (os : list obs) : option (list tval) :=
           | FHexTok, B b => Some (VBytes b :: r)
           | FTag, B b => Some (VBytes b :: r)
           | FB32, B b => Some (VBytes b :: r)
+          | FNsap, B b => Some (VBytes b :: r)
+          | FEnum _, I z => Some (VInt z :: r)
           | FAlg, I z => Some (VInt z :: r)
           | FBitmap, L l => match windows_of_obs l with Some w => Some (VWindows w :: r) | None => None end
           | FName, L l => match name_of_obs l with Some n => Some (VName n :: r) | None => None end
